@@ -29,6 +29,11 @@ def probe():
     n = [len(o['rows']) for o in res]
     if n[1] != n[2]:
         raise Inconclusive('contract probe: the two hash semi-join executors disagree on NULL keys (%s)' % n)
+    o3, rc3, err3 = rl('planrun', {'setup': setup, 'plans': ['(topn null 1 (list $0.0) %s)' % s0, '(limit null 1 %s)' % s0]})
+    r3 = [o for o in o3 if 'plan' in o]
+    if len(r3) != 2:
+        raise Inconclusive('contract probe (top-N without limit) failed: %s' % err3[-300:])
+    topn_panics = bool(r3[0].get('panicked') or not r3[0].get('ok'))
     import shutil
     from vlib.common import scratch_dir
     sorted_runs = 0
@@ -42,6 +47,6 @@ def probe():
         if not q or not q[0].get('ok'):
             raise Inconclusive('contract probe (disk scan order) failed: %s' % err2[-300:])
         sorted_runs += [r[0] for r in q[0]['rows']] == ['1', '2', '3', '4', '5', '6']
-    _cache = {'disk_scan_sorted_by_pk': sorted_runs == 2, 'hashjoin_null_eq': n[0] == 1, 'semijoin_null_eq': n[1] == 1, 'mergejoin_null_eq': n[3] == 1,
+    _cache = {'topn_offset_without_limit_panics': topn_panics, 'disk_scan_sorted_by_pk': sorted_runs == 2, 'hashjoin_null_eq': n[0] == 1, 'semijoin_null_eq': n[1] == 1, 'mergejoin_null_eq': n[3] == 1,
               'count_distinct_counts_null': res[4]['rows'][0][0] == '1'}
     return _cache
